@@ -84,9 +84,10 @@ class World:
         self.d2 = ["3", {"flag": "FALSE"}, [1, 2], 7, {"flag": "3"}, [3, 4]]
         self.d3 = Data({"a": 2, "b": [1, 2], "m": {"x": "abc"}, "tbl": [[7], [8, 9]]})
         self.docs = [self.d1, self.d2, self.d3]
+        self.d4 = Data(["p", "q", "r", {"a": 1}])
 
     def roots(self):
-        return [self.a, self.b, self.ab, self.k, self.part, self.part2, self.mpart, self.pa, self.rows, self.s_cast, self.s_path, self.s_doc, self.s_one, self.ones,
+        return [self.a, self.b, self.ab, self.k, self.part, self.part2, self.mpart, self.pa, self.rows, self.s_cast, self.s_path, self.s_doc, self.s_one, self.ones, self.d4,
                 self.d1, self.d2, self.d3]
 
 
@@ -128,6 +129,9 @@ def menu():
     ops.append(("mpart.filter", 2, lambda w: obs_filtered(w.mpart.filter(w.d3))))
     ops.append(("Data.get", 2, lambda w: vsnap(w.d3.get(DataPath("b", ListValue()), return_paths=True))))
     ops.append(("Data.get parts", 2, lambda w: vsnap(w.d3.get("m", "x"))))
+    for pi, part in enumerate((1, 1.0, True, "1", 0, 0.0, False)):
+        ops.append(("Data.get %r" % (part,), None, lambda w, part=part: vsnap((w.d4.get(part), w.d4.get(part, return_paths=True),
+                                                                                w.d3.get("b", part)))))
     ops.append(("eq schemas", None, lambda w: (w.s_cast == w.s_cast, w.s_cast == w.s_path, w.rules[0] == w.rules[1],
                                                w.pa == DataPath("a"), w.ab == (w.b & w.a), w.part == w.mpart)))
     ops.append(("to_json_like", None, lambda w: vsnap([w.ab.to_json_like(), w.k.to_json_like(), w.pa.to_json_like(),
@@ -163,9 +167,11 @@ _expected = {}
 
 
 def expected(oi):
-    """Result of the operation on freshly built objects."""
+    """Result of the operation on freshly built objects -- computed in a pristine forked process, so that
+    hidden module-level state left behind by the history under test cannot leak into the expectation."""
     if oi not in _expected:
-        _expected[oi] = run_op(World(), oi)
+        from mc.fresh import run_fresh
+        _expected[oi] = run_fresh(lambda: run_op(World(), oi))
     return _expected[oi]
 
 
@@ -270,6 +276,12 @@ def _diff(a, b, path="root"):
 
 def explore(res, first, depth):
     """All operation sequences of length <= depth starting with MENU[first]."""
+    # expectations first, each from a fork of this still-pristine worker (nothing has run in it yet)
+    try:
+        for oi in range(len(MENU)):
+            expected(oi)
+    except RuntimeError:
+        pass   # a world that cannot be built is reported by make_world below
     w = make_world(res)
     if w is None:
         return
